@@ -150,6 +150,12 @@ Theorem redundant_parens_gen (o : oracles) (fmt_int : Z -> string) (fmt_float : 
   parse gen_grammar o (print_any gen_grammar fmt_int fmt_float c2 t).
 Proof. exact (redundant_parens gen_grammar o fmt_int fmt_float gen_grammar_wf c1 c2 t). Qed.
 
+(* any additional parentheses, except around closures, map pairs and nil-safe identifiers *)
+Theorem roundtrip_any_parens_gen (o : oracles) (fmt_int : Z -> string) (fmt_float : float -> string) (c : poracle) (t : expr) :
+  printable gen_grammar fmt_int fmt_float o no_extra t -> harmless c t ->
+  parse gen_grammar o (print_any gen_grammar fmt_int fmt_float c t) = ROk t.
+Proof. exact (roundtrip_any_parens gen_grammar o fmt_int fmt_float gen_grammar_wf c t). Qed.
+
 (* stated with the REFERENCE tables (sorted): printing by the documented rules and parsing with the
    code's tables is the identity *)
 Theorem roundtrip_ref (o : oracles) (fmt_int : Z -> string) (fmt_float : float -> string) (c : poracle) (t : expr) :
